@@ -54,6 +54,14 @@ static void run(const std::vector<std::string> & t)
     }
     std::vector<S> curv(n, static_cast<S>(0)), rel(n, static_cast<S>(0));
     KdTree<PointType> kd(points);
+    if (k >= 2) {
+      // the tree object is reused: a user may query one tree with several neighbourhood sizes; a smaller query first
+      // must not influence the k-neighbour queries that follow (stale per-tree state would)
+      size_t ks = k / 3 + 1;
+      std::vector<size_t> idx0(ks);
+      std::vector<S> d0(ks);
+      kd.findNearestNeighbors(points[0], ks, idx0, d0);
+    }
     {
       std::vector<size_t> idx(k);
       std::vector<S> d(k);
